@@ -50,34 +50,48 @@ def unframe (d : Bytes) : Option Bytes :=
 /-- split VER into 32-bit version numbers (a ragged tail is not a version) -/
 def versionList (v : Bytes) : List Bytes := (chunks 4 v).filter (fun c => c.length = 4)
 
+/-- how the property classifies a datagram as a request -/
+inductive ReqClass where
+  /-- well-formed, must be answered; carries the nonce -/
+  | must (nonce : Bytes)
+  /-- well-formed draft-13 request whose version list names draft-13 only beyond the fourth
+      entry: the server may answer it or not (C12: "only if listed, always if among the first four") -/
+  | may (nonce : Bytes)
+  /-- must not be answered -/
+  | no
+  deriving Repr, DecidableEq
+
 /-- A well-formed request for protocol `p` addressed to a server whose commitment value is `srv`:
     length 1024..1500; classic: a message with a 64-byte NONC; draft-13: framed, a message with VER
-    listing 0x8000000c, a 32-byte NONC, and SRV absent or equal to `srv`. Returns the nonce. -/
-def parseRequest (p : Proto) (srv : Bytes) (d : Bytes) : Option Bytes :=
-  if d.length < 1024 ∨ d.length > 1500 then none else
+    listing 0x8000000c, a 32-byte NONC, and SRV absent or equal to `srv`. -/
+def classifyRequest (p : Proto) (srv : Bytes) (d : Bytes) : ReqClass :=
+  if d.length < 1024 ∨ d.length > 1500 then .no else
   match p with
   | .classic =>
-    if d.take 8 = magic then none else
+    if d.take 8 = magic then .no else
     match decode d with
-    | none => none
+    | none => .no
     | some m => match m.get Tag.NONC with
-      | some n => if n.length = 64 then some n else none
-      | none => none
+      | some n => if n.length = 64 then .must n else .no
+      | none => .no
   | .draft13 =>
     match unframe d with
-    | none => none
+    | none => .no
     | some body =>
       match decode body with
-      | none => none
+      | none => .no
       | some m =>
         match m.get Tag.VER, m.get Tag.NONC with
         | some v, some n =>
-          if ¬ (versionList v).contains ver13 then none
-          else if n.length ≠ 32 then none
-          else match m.get Tag.SRV with
-            | some s => if s = srv then some n else none
-            | none => some n
-        | _, _ => none
+          if ¬ (versionList v).contains ver13 then .no
+          else if n.length ≠ 32 then .no
+          else
+            let ok : Bool := match m.get Tag.SRV with
+              | some s => s = srv
+              | none => true
+            if ¬ ok then .no
+            else if ((versionList v).take 4).contains ver13 then .must n else .may n
+        | _, _ => .no
 
 /-- which protocol a datagram is a request of (by its magic) -/
 def protoOf (d : Bytes) : Proto := if d.take 8 = magic then .draft13 else .classic
